@@ -40,12 +40,19 @@ def run(case):
     except Exception:
         return {'violations': [], 'rejected': {'sampler_dead_end_judged_by_C16': 1}, 'nontrivial': False, 'cls': 'sampler_dead_end', 'sample': txt}
     viol, checked = [], 0
+    import re
+    h_fragments = set(re.findall(r'#(\w+)=(?:\[[$<>][^\]]*\])\[H\](?=[,}])', case['frag_string']))
     for a, d in mol.nodes(data=True):
         el = d.get('element')
         if el == 'H':
-            if mol.degree(a) != 1:
+            # a hydrogen written as a fragment of its own ([$][H]) is an atom of the input, not a completed hydrogen: it keeps
+            # its own fragment identity and is bonded once (or not at all if it is the whole sample)
+            own_fragment = d.get('fragname') in h_fragments
+            if mol.degree(a) != 1 and not (own_fragment and mol.degree(a) == 0 and len(mol) == 1):
                 viol.append(V('c09.h_degree', f'{txt}: hydrogen {a} has degree {mol.degree(a)}'))
                 break
+            if own_fragment:
+                continue
             p = next(iter(mol[a]))
             if any(d.get(k) != mol.nodes[p].get(k) for k in ('fragid', 'fragname')):
                 viol.append(V('c09.h_inherit', f'{txt}: hydrogen {a} has fragid/fragname {d.get("fragid")}/{d.get("fragname")}, its atom {p} {mol.nodes[p].get("fragid")}/{mol.nodes[p].get("fragname")}'))
